@@ -117,8 +117,14 @@ def run_publish(work, store, order, img_order, fault, kind, calls_path):
                 signal.raise_signal(signal.SIGINT)
                 return  # (only reached if something has taken the interrupt over; the session then simply goes on)
             if kind == "transient":
-                # an ordinary, transient I/O error of the store (connection drop): only this one call fails
-                raise OSError("injected transient store error")
+                # an ordinary, transient I/O error of the store: only this one call fails. The class varies: a plain OSError, the
+                # folder vanished under the writer (ENOENT), a reset connection, a time-out, a non-OSError from the store's client
+                import errno as _e
+
+                k = (state["k"] + len(calls_path)) % 5
+                raise [OSError("injected transient store error"), FileNotFoundError(_e.ENOENT, "No such file or directory (injected: store folder unmounted)"),
+                       ConnectionResetError(_e.ECONNRESET, "Connection reset by peer (injected)"), TimeoutError(_e.ETIMEDOUT, "timed out (injected)"),
+                       RuntimeError("injected failure of the store client")][k]
             raise Crash()
 
         def put(*path, source=None):
@@ -184,7 +190,7 @@ def run_publish(work, store, order, img_order, fault, kind, calls_path):
     try:
         body()
         return "ok"
-    except (Crash, OSError, KeyboardInterrupt):
+    except (Crash, OSError, KeyboardInterrupt, RuntimeError):
         return "fault"
     finally:
         if old_handler is not None:
